@@ -296,4 +296,6 @@ def check(ctx):
     ctx.import_clauses("C14", {"C14.c"}, "C11.f", pick=lambda s: "batchsz" in s, minimum=2)
     # ---------------- (g) the layers that carry each sample through connections and neurons (tables and wiring shared with C17)
     ctx.import_clauses("C17", {"C17.t", "C17.a", "C17.b"}, "C11.g", minimum=10,
-                       pick=lambda s: s.startswith(("Layer.forward", "Serial.", "Biclique.", "RecurrentSerial.", "Layer.wiring", "Cell.")))
+                       pick=lambda s: s.startswith(("Layer.forward", "Serial.forward", "Serial.wiring", "Biclique.forward", "Biclique.wiring",
+                                                    "RecurrentSerial.forward", "RecurrentSerial.wiring", "Layer.wiring")) or
+                       ("combine" in s and s.startswith("Biclique")))
